@@ -65,7 +65,7 @@ Proof. destruct t; cbn; intros H; try discriminate; auto. Qed.
 (* what processing one request does to the record of its type *)
 Lemma srd_record st r out st' :
   is_wildcard (d_ty r) = false ->
-  should_respond_delta NilIgnore st r = (out, st') ->
+  should_respond_delta st r = (out, st') ->
   (dropped st r = true -> record st' (d_ty r) = record st (d_ty r)) /\
   (dropped st r = false -> forall x, In x (record st' (d_ty r)) <->
      ((In x (record st (d_ty r)) \/ In x (d_sub r) \/ In x (d_init r)) /\ ~ In x (d_unsub r) /\ x <> star)).
@@ -129,7 +129,7 @@ Qed.
 
 Lemma dstep_inv s l : dinv s -> dinv (dstep t s l).
 Proof.
-  intros Hinv. destruct l as [subs unsubs inits|e subs unsubs|n gen|n gen|o]; unfold dstep.
+  intros Hinv. destruct l as [subs unsubs inits|e subs unsubs|n gen sends|n gen|o]; unfold dstep.
   - apply (dinv_append s (mkDReq t subs unsubs inits 0 None)); [exact Hinv|reflexivity].
   - destruct (x_s2c s) as [|n rest]; [exact Hinv|].
     apply (dinv_append s (mkDReq t subs unsubs [] n e)); [exact Hinv|reflexivity].
@@ -137,7 +137,7 @@ Proof.
     destruct Hinv as [HF [Hst HP]]. rewrite Ec in HF, HP.
     assert (Hrt : d_ty r = t) by (inversion HF; assumption).
     assert (HFr : Forall (fun m => d_ty m = t) rest) by (inversion HF; assumption).
-    destruct (should_respond_delta NilIgnore (x_srv s) r) as [out st'] eqn:Esr.
+    destruct (should_respond_delta (x_srv s) r) as [out st'] eqn:Esr.
     assert (Hwr : is_wildcard (d_ty r) = false) by (rewrite Hrt; exact Hnw).
     destruct (srd_record _ _ _ _ Hwr Esr) as [Hdrop Happ]. rewrite Hrt in Hdrop, Happ.
     destruct (nonwildcard_no_mod _ Hnw) as [_ Hset].
@@ -162,7 +162,7 @@ Proof.
           intros y. unfold sem_apply, base. rewrite Hrec, Happ. tauto. }
     unfold newnames_for. rewrite Hset.
     destruct out as [|b subs0|]; [apply Hcore; reflexivity| |apply Hcore; reflexivity].
-    destruct b; apply Hcore; [apply send_delta_none_record|reflexivity].
+    destruct b; [destruct sends|]; apply Hcore; first [apply send_delta_none_record|reflexivity].
   - destruct (x_srv s t) eqn:Ew; [|exact Hinv].
     destruct (nonwildcard_no_mod _ Hnw) as [_ Hset]. unfold newnames_for. rewrite Hset.
     apply (dinv_same_record s); [exact Hinv|apply send_delta_none_record].
@@ -207,7 +207,7 @@ Qed.
 
 Lemma dstep_inv1 s l : class1_label l = true -> dinv1 s -> dinv1 (dstep t s l).
 Proof.
-  intros Hl [Hok HG]. destruct l as [subs unsubs inits|e subs unsubs|n gen|n gen|o]; unfold dstep.
+  intros Hl [Hok HG]. destruct l as [subs unsubs inits|e subs unsubs|n gen sends|n gen|o]; unfold dstep.
   - split; [exact Hok|]. cbn. apply Forall_app. split; [exact HG|]. constructor; [|constructor].
     intros _. cbn. auto.
   - destruct (x_s2c s) as [|n rest]; [split; assumption|]. split; [exact Hok|]. cbn.
@@ -218,7 +218,7 @@ Proof.
     assert (Hg : good_msg r) by (inversion HG; assumption).
     assert (HGr : Forall good_msg rest) by (inversion HG; assumption).
     rewrite (good_not_dropped (x_srv s) r Hg), Hok.
-    destruct (should_respond_delta NilIgnore (x_srv s) r) as [[|[] ?|] st']; split; cbn; auto.
+    destruct (should_respond_delta (x_srv s) r) as [[|[] ?|] st']; [|destruct sends| |]; split; cbn; auto.
   - destruct (x_srv s t); split; assumption.
   - destruct (ty_eqb (op_ty o) t); split; assumption.
 Qed.
@@ -242,7 +242,7 @@ End DeltaLoop.
 
 (* K13: with changes piggybacked on ACKs the full statement is false - a push overtakes the ACK *)
 Definition k13_schedule : list dlabel :=
-  [ DChange [1] [] []; DProc 1 []; DPush 2 []; DRecv None [2] []; DProc 3 []; DRecv None [] []; DProc 4 [] ].
+  [ DChange [1] [] []; DProc 1 [] true; DPush 2 []; DRecv None [2] []; DProc 3 [] true; DRecv None [] []; DProc 4 [] true ].
 
 Lemma record_matches_client_delta_piggyback_refuted :
   exists t ls, is_wildcard t = false /\
